@@ -718,6 +718,25 @@ impl Foreign {
             }
         }
         out.stats.probe(&format!("foreign file: {}", tn.rsplit("::").next().unwrap_or(tn)));
+        // The same foreign bytes as a file, loaded through load_from.
+        {
+            let fs = FsSession::start(FsPlan { chunk: self.r.chunk.clone(), eintr: self.r.eintr.clone(), fault: None }, 2 * stripped.len());
+            let path = crate::scratch::file("simforeign");
+            fs.put(&path, stripped.clone());
+            let r = catch(|| val.load_from(&path));
+            if fs.with(|st| st.counters.opens) == 0 {
+                out.stats.probe("file seam bypassed: the code under test opened the real file system directly");
+            } else {
+                match r {
+                    Ok(Ok(l)) => {
+                        if !is_bv && !val.eq_dyn(l.as_ref()) { return out.fail(v("foreign-not-equal", "load_from", format!("{}: value loaded with load_from from a support-free file differs from the library-built one", self.payload.describe()))); }
+                        out.stats.probe("foreign file loaded through load_from");
+                    },
+                    Ok(Err(e)) => return out.fail(v("foreign-load-error", "load_from", format!("{}: file without support structures (kept mask {:03b}) does not load through load_from: {}", self.payload.describe(), self.keep, e))),
+                    Err(p) => return out.fail(v("panic", "load_from", p)),
+                }
+            }
+        }
         out
     }
 
